@@ -11,6 +11,13 @@ from .smt import Obligation, Result, discharge
 KNOWN_PATH = os.path.join(VERIF, 'known_findings.json')
 EXPECTED_PATH = os.path.join(VERIF, 'expected_obligations.json')
 
+def _out_root():
+    "evidence/ and replay/ live in /verif only for runs against /repo itself; scratch-copy runs (VERIF_REPO) write elsewhere"
+    if os.path.realpath(REPO) == '/repo': return VERIF
+    d = os.environ.get('VERIF_OUT') or os.path.join('/tmp', 'verif_scratch_out', os.path.basename(os.path.realpath(REPO)))
+    os.makedirs(d, exist_ok=True)
+    return d
+
 def _san(name): return re.sub(r'[^A-Za-z0-9_.+-]', '_', name)[:150]
 
 def load_known():
@@ -100,8 +107,9 @@ class Ctx:
         return None
 
     def finish(self) -> int:
-        os.makedirs(os.path.join(VERIF, 'replay', self.prop), exist_ok=True)
-        os.makedirs(os.path.join(VERIF, 'evidence'), exist_ok=True)
+        OUT = _out_root()
+        os.makedirs(os.path.join(OUT, 'replay', self.prop), exist_ok=True)
+        os.makedirs(os.path.join(OUT, 'evidence'), exist_ok=True)
         lines, known_lines = [], []
         violations = 0
         undecided = [r for r in self.results if r.status == 'unknown']
@@ -118,7 +126,7 @@ class Ctx:
                         rp = dict(reproduced=None, detail='replay harness error: ' + ''.join(traceback.format_exception_only(type(e), e)).strip())
                     break
             if rp is None: rp = dict(reproduced=None, detail='no replay harness for this obligation; solver output attached')
-            path = os.path.join(VERIF, 'replay', self.prop, _san(r.name) + '.json')
+            path = os.path.join(OUT, 'replay', self.prop, _san(r.name) + '.json')
             payload = dict(property=self.prop, obligation=r.name, where=r.where, backend=r.backend, status=r.status,
                            counterexample=r.cex, all_counterexamples=r.cex_all, meta=_jsonable(r.meta), solver_detail=r.detail,
                            smt2=r.smt2, replay=_jsonable(rp), replay_cmd=f'./vf replay {os.path.relpath(path, VERIF)}')
@@ -132,7 +140,7 @@ class Ctx:
             sfx = '' if rp.get('reproduced') else ' no-failing-input-found'
             lines.append(f'VIOLATION property={self.prop} replay={path}{sfx}  # obligation {r.name}')
         for bf in self.bounded_failures:
-            path = os.path.join(VERIF, 'replay', self.prop, _san('bounded.' + bf['name'] + '.' + hashlib.sha1(json.dumps(bf['payload'], sort_keys=True, default=str).encode()).hexdigest()[:8]) + '.json')
+            path = os.path.join(OUT, 'replay', self.prop, _san('bounded.' + bf['name'] + '.' + hashlib.sha1(json.dumps(bf['payload'], sort_keys=True, default=str).encode()).hexdigest()[:8]) + '.json')
             with open(path, 'w') as f:
                 json.dump(dict(property=self.prop, obligation=bf['name'], kind='bounded', what=bf['what'], input=_jsonable(bf['payload']),
                                replay_cmd=f'./vf replay {os.path.relpath(path, VERIF)}'), f, indent=1, default=str)
@@ -189,7 +197,7 @@ class Ctx:
         cov.update(self.extra)
         ev = dict(property_id=self.prop, tier=self.tier, seed=self.seed, level=level, coverage=cov,
                   assumptions=self.assumptions, wall_s=round(time.time() - self.t0, 2), violations=violations)
-        with open(os.path.join(VERIF, 'evidence', f'{self.prop}.json'), 'w') as f:
+        with open(os.path.join(OUT, 'evidence', f'{self.prop}.json'), 'w') as f:
             json.dump(ev, f, indent=1, default=str)
         for l in known_lines: print(l)
         for l in lines: print(l)
